@@ -79,7 +79,7 @@ def _c15_worker(case):
                 msgs.append(("invalid-after-" + r.split(":")[0], f"after {op} -> {r}: {msg}")); break
             ns, es = parse_dump(dmp)
             # (2) return values mean what they say
-            if op[0] in ("bfs", "dfs") and r == "true" and op[1] in (None, 0) and op[2] is None and not all(x["exp"] for x in ns):
+            if op[0] in ("bfs", "dfs") and r == "true" and op[1] in (None, 0) and not all(x["exp"] for x in ns):     # whatever the limits were
                 # only nodes reachable from the start; start = root reaches everything in plain histories
                 if all(is_plain(o) for o, *_ in snaps[: idx + 1]):
                     msgs.append(("true-but-incomplete", f"{op} returned True but unexpanded nodes remain")); break
